@@ -16,7 +16,7 @@ if TYPE_CHECKING:
 
 from exabgp.bgp.message.update.attribute.attribute import Attribute
 from exabgp.protocol.family import AFI
-from exabgp.protocol.ip import IP
+from exabgp.protocol.ip import IP, IPv4
 
 # ================================================================== NextHop (3)
 
@@ -169,6 +169,9 @@ class NextHop(Attribute):
     def unpack_attribute(cls, data: Buffer, negotiated: Negotiated) -> Attribute:
         if not data:
             return NextHop.UNSET
+        # RFC 4271 4.3 / RFC 7606 7.3: the NEXT_HOP attribute carries one IPv4 address (IPv6 next hops travel in MP_REACH_NLRI)
+        if len(data) != IPv4.BYTES:
+            raise ValueError(f'NEXT_HOP attribute must be {IPv4.BYTES} bytes, got {len(data)}')
         return cls.from_packet(data)
 
 
